@@ -364,7 +364,9 @@ impl<'a> MG<'a> {
 
     pub fn gate_call(&mut self) -> S {
         let mods = self.modifiers();
-        if self.r.chance(1, 8) && !(self.cfg.syn_safe && !mods.is_empty()) {
+        if self.r.chance(1, 8) {
+            // (a controlled global phase is a recorded C04 finding: the safe profile keeps inv/pow only)
+            let mods: Vec<Modifier> = if self.cfg.syn_safe { mods.into_iter().filter(|m| matches!(m, Modifier::Inv | Modifier::Pow(_))).collect() } else { mods };
             let a = self.expr(1);
             return self.s(SK::GPhase(mods, a));
         }
@@ -697,6 +699,10 @@ impl<'a> MG<'a> {
     pub fn program(&mut self) -> Vec<S> {
         let n = self.r.range(1, self.cfg.max_stmts);
         let mut v: Vec<S> = Vec::new();
+        if self.r.chance(1, 4) {
+            let ver = *self.r.pick(&["3.0", "3", "3.1"]);
+            v.push(self.s(SK::Version(ver.to_string())));
+        }
         if self.r.chance(1, 3) {
             v.push(self.s(SK::Include("stdgates.inc".to_string())));
         }
